@@ -18,7 +18,7 @@ def run(cmd, cwd=None, timeout=600):
         return 124, 'TIMEOUT'
 
 
-WAVE = (11, 12)      # mutant numbers of the wave being imported (earlier waves: 1-2, 3-4)
+WAVE = (13, 14)      # mutant numbers of the wave being imported (earlier waves: 1-2, 3-4)
 
 
 def main():
